@@ -889,7 +889,7 @@ func assertSiteExists(fn *ssa.Function, key string) bool {
 			if common.IsInvoke() {
 				cn = common.Method.Name()
 			} else if f := common.StaticCallee(); f != nil {
-				cn = f.Name()
+				cn = siteCalleeName(f)
 			} else if _, isB := common.Value.(*ssa.Builtin); !isB {
 				cn = "dyn"
 			}
